@@ -85,6 +85,7 @@ type Gen struct {
 	entry       *State
 	stack       []*ssa.Function
 	needDivFns  bool
+	needWraps   bool
 	heapConsts  []string
 	constKey    map[string]string
 	pureKeys    map[string][]string
